@@ -23,7 +23,7 @@ theorem runInv (env : Env) : RunInv env (fun s => inv02 s = true) where
   applied s a h := by
     rw [inv02_iff] at h ⊢
     exact Inv02On_congr rfl rfl h
-  transition hwf hi hveh h := by
+  transition hwf hi hveh _ h := by
     rw [inv02_iff] at hi ⊢
     exact transition_inv02 hwf hi hveh h
   update hwf hi hveh h := by
@@ -32,7 +32,7 @@ theorem runInv (env : Env) : RunInv env (fun s => inv02 s = true) where
   tick s h := by
     rw [inv02_iff] at h ⊢
     exact Inv02On_congr rfl rfl h
-  arrival _ hi _ _ h := by
+  arrival _ hi _ _ _ h := by
     rw [inv02_iff] at hi ⊢
     unfold Sim.addRequest at h
     split at h
